@@ -18,7 +18,9 @@ import logging
 import struct
 import types
 
-from engine import symex
+import z3
+
+from engine import codec, symex
 from engine.symex import And, Not, SInt, sym_int, sym_min
 from engine.vloop import VLoop
 
@@ -97,83 +99,131 @@ def xlen(x):
     """`len` shim injected into connection.py / model.py"""
     if isinstance(x, Chunk):
         return x.n
-    if isinstance(x, WireInt):
-        return x.width
     return len(x)
 
 
-class WireInt:
-    """`width` bytes on the wire that are the little-endian encoding of `value` (symbolic)"""
-    __slots__ = ('width', 'value')
+# --- the 8-byte offset and the 4-byte ticket travel as real bytes (engine/codec.py: SBytes of BV8 terms) through the
+# --- real uint64 / uint32 serialize / deserialize; only struct.Struct is the pure-Python StructStub
 
-    def __init__(self, width, value):
-        self.width = width
-        self.value = value
-
-    def __bool__(self):
-        return True
-
-    def __len__(self):
-        return self.width
-
-
-class SymStruct:
-    """pure-Python stand-in for struct.Struct('<Q') / ('<I'): same range error, value kept symbolic"""
-
-    def __init__(self, fmt):
-        self.format = fmt
-        self.size = struct.calcsize(fmt)
-        self.hi = 2 ** (8 * self.size) - 1
-
-    def pack(self, v):
-        v = getattr(v, 'v', v)
-        if isinstance(v, WireInt) or not isinstance(v, (int, SInt)):
-            raise struct.error('required argument is not an integer')
-        if v < 0 or v > self.hi:      # forks when symbolic and feasible
-            raise struct.error('argument out of range')
-        return WireInt(self.size, v)
-
-    def unpack_from(self, data, offset=0):
-        if isinstance(data, WireInt):
-            if offset != 0 or data.width != self.size:
-                raise struct.error('unpack_from requires a buffer of the right size')
-            return (data.value,)
-        return struct.Struct(self.format).unpack_from(data, offset)
+def _low_bytes_of(terms):
+    """if the byte terms are bytes 0..k-1 (little endian) of int_to_bv(v) for one Int term v, return v"""
+    base = None
+    for i, t in enumerate(terms):
+        if isinstance(t, int) or not z3.is_app_of(t, z3.Z3_OP_EXTRACT) or t.params() != [8 * i + 7, 8 * i]:
+            return None
+        a = t.arg(0)
+        if not z3.is_app_of(a, z3.Z3_OP_INT2BV) or (base is not None and not a.eq(base)):
+            return None
+        base = a
+    return None if base is None else base.arg(0)
 
 
-def _box(real_cls):
-    """`uint64(v)` -> box carrying the (symbolic) value; serialize/deserialize are the REAL
-    function objects of the aioslsk class, only STRUCT is the pure-Python one (DESIGN §2.3)"""
-    d = real_cls.__dict__
+def bytes_to_int(terms, signed=False):
+    """little-endian value of byte terms, in the Int theory (python int when all bytes are concrete).
+    bv2int(extract[8k-1:0](int2bv(v))) == v mod 2^(8k) is applied as a rewrite (exact for every integer v; validated in
+    the prelude): the solver then works in linear arithmetic instead of converting 64-bit vectors."""
+    terms = list(terms)
+    if not terms:
+        return 0
+    if all(isinstance(t, int) for t in terms):
+        return int.from_bytes(bytes(terms), 'little', signed=signed)
+    k = len(terms)
+    v = _low_bytes_of(terms)
+    if v is not None:
+        u = z3.simplify(v % (1 << (8 * k)))
+    else:
+        bv = [z3.BitVecVal(t, 8) if isinstance(t, int) else t for t in reversed(terms)]
+        u = z3.BV2Int(z3.Concat(*bv) if len(bv) > 1 else bv[0], False)
+    if signed:
+        u = z3.If(u >= (1 << (8 * k - 1)), u - (1 << (8 * k)), u)
+    return SInt(u)
 
-    class Box:
-        STRUCT = SymStruct(real_cls.STRUCT.format)
 
-        def __init__(self, v):
-            self.v = v
+class IntStruct(codec.StructStub):
+    """engine.codec.StructStub (pack: CPython's range check, value -> BV8 byte terms) whose unpack hands integers
+    back as Int-theory values (SInt) instead of bit-vector words, because everything C04 does with them is counting"""
 
-        serialize = d['serialize']
-        serialize_into = d['serialize_into']
-        deserialize = classmethod(d['deserialize'].__func__)
+    def _unpack_terms(self, terms):
+        out, p = [], 0
+        for code, n in self.items:
+            if code not in codec._INT_CODES:
+                raise symex.HarnessError(f'IntStruct: format code {code!r} not modelled')
+            nb, signed = codec._INT_CODES[code]
+            out.append(bytes_to_int(terms[p:p + nb], signed))
+            p += nb
+        return tuple(out)
 
-    Box.__name__ = Box.__qualname__ = real_cls.__name__ + '_box'
-    return Box
+
+def int_primitives():
+    """the integer primitives of aioslsk.protocol.primitives (uint8, uint16, uint32, uint64, int32)"""
+    return [cls for cls in vars(primitives).values()
+            if isinstance(cls, type) and issubclass(cls, int) and cls.__module__ == primitives.__name__
+            and isinstance(cls.__dict__.get('STRUCT'), struct.Struct)
+            and cls.__dict__['STRUCT'].format.lstrip('<') in codec._INT_CODES]
 
 
 def wire_value(c, data, width=8):
-    """what integer did the code put on the wire (harness side decoding)"""
-    if isinstance(data, WireInt):
-        return data.value
+    """reference decoding (harness side): which integer is on the wire"""
+    if isinstance(data, codec.SBytes) and len(data) == width:
+        return bytes_to_int(data.b)
     if isinstance(data, (bytes, bytearray)) and len(data) == width:
         return int.from_bytes(data, 'little')
     raise symex.HarnessError(f'unexpected data on the wire where a {width}-byte integer was expected: {data!r}')
 
 
 def wire_token(c, value, width=8):
-    """harness side encoding of an integer a scripted peer sends"""
+    """reference encoding (harness side) of an integer a scripted peer sends: `width` little-endian bytes"""
     if c.symbolic:
-        return WireInt(width, value)
+        return codec.SBytes(codec.int_terms(value, width, False))
     return int(value).to_bytes(width, 'little')
+
+
+class TicketMap:
+    """stands in for the dict TransferManager._file_connection_futures (ticket -> future) so that a symbolic ticket
+    can be a key: lookup compares with every stored key (the comparison forks when both outcomes are feasible)"""
+
+    def __init__(self):
+        self.items = []
+
+    def _find(self, k):
+        for i, (sk, _) in enumerate(self.items):
+            if bool(sk == k):
+                return i
+        return None
+
+    def __setitem__(self, k, v):
+        i = self._find(k)
+        if i is None:
+            self.items.append((k, v))
+        else:
+            self.items[i] = (self.items[i][0], v)
+
+    def __getitem__(self, k):
+        i = self._find(k)
+        if i is None:
+            raise KeyError(k)
+        return self.items[i][1]
+
+    def get(self, k, default=None):
+        i = self._find(k)
+        return default if i is None else self.items[i][1]
+
+    def __contains__(self, k):
+        return self._find(k) is not None
+
+    def __len__(self):
+        return len(self.items)
+
+
+def symbolic_tickets(c, tag):
+    """stands in for utils.ticket_generator(): any ticket in 1..2^32-1, distinct from the ones handed out before"""
+    seen = []
+    while True:
+        t = c.fresh_int(f'{tag}_ticket{len(seen)}', 1, 2 ** 32 - 1)
+        for o in seen:
+            c.assume(t != o)
+        seen.append(t)
+        yield t
 
 
 # ------------------------------------------------------------------------------------------
@@ -309,6 +359,10 @@ class Env:
         self.saved.append((mod, name, mod.__dict__.get(name, _MISSING)))
         mod.__dict__[name] = value
 
+    def _setc(self, cls, name, value):
+        self.saved.append((cls, name, cls.__dict__.get(name, _MISSING)))
+        setattr(cls, name, value)
+
     def __enter__(self):
         clock = types.SimpleNamespace(time=self.loop.time, monotonic=self.loop.time)
         self._set(mgr_mod, 'aiofiles', self.fs.aiofiles)
@@ -317,23 +371,30 @@ class Env:
         self._set(model_mod, 'time', clock)
         self._set(rl_mod, 'time', clock)
         if self.c.symbolic:
-            box64 = _box(primitives.uint64)
             self._set(conn_mod, 'len', xlen)
             self._set(model_mod, 'len', xlen)
-            self._set(mgr_mod, 'uint64', box64)
-            self._set(conn_mod, 'uint64', box64)
             self._set(mgr_mod, 'int', sym_int)
+            for cls in int_primitives():
+                # engine/codec.py's stubs for the integer primitives: uint64(v) with a symbolic v is a box whose
+                # methods are the real functions of the class; STRUCT packs to / unpacks from BV8 byte terms
+                self._setc(cls, 'STRUCT', IntStruct(cls.STRUCT.format))
+                self._setc(cls, '__new__', codec._boxed_new(int))
         self._log_disabled = logging.root.manager.disable
         logging.disable(logging.CRITICAL)
         return self
 
     def __exit__(self, *a):
         logging.disable(self._log_disabled)
-        for mod, name, old in reversed(self.saved):
-            if old is _MISSING:
-                mod.__dict__.pop(name, None)
+        for tgt, name, old in reversed(self.saved):
+            if isinstance(tgt, type):
+                if old is _MISSING:
+                    delattr(tgt, name)
+                else:
+                    setattr(tgt, name, old)
+            elif old is _MISSING:
+                tgt.__dict__.pop(name, None)
             else:
-                mod.__dict__[name] = old
+                tgt.__dict__[name] = old
         try:
             self.loop.cleanup()
         except Exception:  # noqa
@@ -419,7 +480,7 @@ def make_manager(env, net):
     m._event_bus = EventBus()
     m._ticket_generator = ticket_generator()
     m._transfers = []
-    m._file_connection_futures = {}
+    m._file_connection_futures = TicketMap()
     m._management_queue = env.loop.call(asyncio.Queue, 1)
     m._management_flags = _RequestFlag(0)
     return m
@@ -646,6 +707,7 @@ class Receiver:
         self.end = None              # how the final read-until-EOF ended
         self.closed = False
         self.drains = 0
+        self.ticket_wire = None
 
     def write(self, data):
         self.written.append(data)
@@ -654,7 +716,8 @@ class Receiver:
         i = self.drains
         self.drains += 1
         if i == 0:
-            return                   # the ticket
+            self.ticket_wire = wire_value(self.c, self.written[0], 4)     # the ticket comes first
+            return
         data = self.written[-1]
         if not isinstance(data, Chunk):
             raise symex.HarnessError(f'unexpected write on the file connection: {data!r}')
@@ -713,6 +776,7 @@ def h_upload(c, lim='unlimited', reads=2, offset_read='ok', write_faults=True):
         net = FakeNet()
         net.loop = loop
         mgr = make_manager(env, net)
+        mgr._ticket_generator = symbolic_tickets(c, 'u')
         transfer = Transfer('peer', REMOTE, TransferDirection.UPLOAD)
         transfer.state_listeners.append(mgr)
         mgr._transfers.append(transfer)
@@ -737,8 +801,14 @@ def h_upload(c, lim='unlimited', reads=2, offset_read='ok', write_faults=True):
         if len(reqs) != 1:
             raise symex.HarnessError('upload did not announce itself with exactly one PeerTransferRequest')
         announced = reqs[0].filesize
+        if recv.ticket_wire is not None:
+            c.reach('ticket_sent')
+            c.check(recv.ticket_wire == reqs[0].ticket, 'ticket_on_wire_is_announced_ticket', sig=[lim],
+                    info='the 4 bytes that open the file connection do not decode to the ticket of the PeerTransferRequest')
         if st == S.COMPLETE:
             c.reach('upload_complete')
+            c.check(Not(O > announced) if c.symbolic else not (O > announced), 'no_complete_beyond_size', sig=sig,
+                    info='COMPLETE although the offset the downloader sent lies beyond the announced size')
             chunks = [d for d in recv.written[1:]]
             c.check(all(isinstance(d, Chunk) for d in chunks) and len(recv.sent) == len(chunks) and recv.fault is None,
                     'upload_complete_every_write_succeeded', sig=sig)
@@ -753,7 +823,6 @@ def h_upload(c, lim='unlimited', reads=2, offset_read='ok', write_faults=True):
                     info='COMPLETE but offset + bytes sent differs from the announced file size')
             c.check(recv.end in ('eof', 'reset', 'data_then_eof'), 'upload_complete_peer_closed', sig=sig,
                     info='COMPLETE although the peer never closed the connection')
-            c.check(Not(O > announced) if c.symbolic else not (O > announced), 'no_complete_beyond_size', sig=sig)
         if recv.fault is not None:
             c.reach('upload_break')
             c.check(st != S.COMPLETE, 'upload_break_not_complete', sig=sig)
@@ -995,6 +1064,7 @@ def h_pair(c, lim='anysize', reads=2, segments=3, cuts=0, pre='fresh', attempts=
         F = c.fresh_int('filesize', 0, U64)
         unet, dnet = PairNet(env), PairNet(env)
         umgr, dmgr = make_manager(env, unet), make_manager(env, dnet)
+        umgr._ticket_generator = symbolic_tickets(c, 'u')
         nobody_blocked = types.SimpleNamespace(users=types.SimpleNamespace(is_blocked=lambda u, f: False))
         umgr._settings = dmgr._settings = nobody_blocked
         unet.other_mgr, dnet.other_mgr = dmgr, umgr
@@ -1102,24 +1172,74 @@ def h_pair(c, lim='anysize', reads=2, segments=3, cuts=0, pre='fresh', attempts=
 
 def prelude(tier):
     notes = []
-    real = struct.Struct('<Q')
-    sym = SymStruct('<Q')
-    for v in (0, 1, 255, 256, 2 ** 32, 2 ** 63, U64):
-        t = sym.pack(v)
-        if sym.unpack_from(t)[0] != real.unpack_from(real.pack(v))[0] or len(real.pack(v)) != t.width:
-            raise RuntimeError(f'SymStruct disagrees with struct on {v}')
-    for v in (-1, U64 + 1):
-        for s in (real, sym):
+    # 1. IntStruct (engine.codec.StructStub + Int-valued unpack) against struct on boundary values, errors included,
+    #    and the exact case of the offset read: a 4-byte format applied to an 8-byte buffer
+    import random
+    rng = random.Random(4)
+    cases = 0
+    for fmt in ('<Q', '<I'):
+        real, stub = struct.Struct(fmt), IntStruct(fmt)
+        hi = 2 ** (8 * real.size) - 1
+        for v in [0, 1, 255, 256, 65535, 65536, 2 ** 31, 2 ** 32 - 1, 2 ** 32, 2 ** 32 + 5, 2 ** 63, hi - 1, hi, hi + 1, -1] + \
+                 [rng.randrange(hi + 1) for _ in range(50)]:
+            cases += 1
             try:
-                s.pack(v)
+                want = real.pack(v)
             except struct.error:
-                continue
-            raise RuntimeError(f'{s} accepted out-of-range value {v}')
-    notes.append('SymStruct(<Q) == struct.Struct(<Q) on 7 boundary values, both reject -1 and 2^64')
-    # the box runs the real serialize / deserialize functions
-    box = _box(primitives.uint64)
-    if box(5).serialize().value != 5 or box.deserialize(0, WireInt(8, 7)) != (8, 7):
-        raise RuntimeError('uint64 box does not run the real codec functions')
+                want = 'struct.error'
+            try:
+                got = stub.pack(v).concrete()
+            except struct.error:
+                got = 'struct.error'
+            if want != got:
+                raise RuntimeError(f'IntStruct.pack {fmt} {v}: real {want!r} stub {got!r}')
+            if want != 'struct.error':
+                for buf in (want, want + b'\x07\x00\x00\x01', b'\x00' * 8 if fmt == '<I' else want):
+                    if real.unpack_from(buf, 0) != stub.unpack_from(codec.SBytes(list(buf)), 0):
+                        raise RuntimeError(f'IntStruct.unpack_from {fmt} {buf!r}')
+    for v in [0, 5, 2 ** 32 - 1, 2 ** 32, 2 ** 32 + 5, U64] + [rng.randrange(U64 + 1) for _ in range(50)]:
+        cases += 1
+        if struct.Struct('<I').unpack_from(struct.pack('<Q', v), 0)[0] != v % 2 ** 32:
+            raise RuntimeError('struct semantics changed?')
+    notes.append(f'IntStruct == struct.Struct on {cases} pack/unpack cases for <Q and <I (range errors, long buffers included)')
+    # 2. the rewrite in bytes_to_int: bv2int(low k bytes of int2bv(v)) == v mod 2^(8k): on concrete values by evaluation,
+    #    and for all v by z3 for k = 4 and k = 8
+    x = z3.Int('_c04_x')
+    terms = [z3.simplify(z3.Extract(8 * i + 7, 8 * i, z3.Int2BV(x, 64))) for i in range(8)]
+    for k in (1, 2, 4, 7, 8):
+        if _low_bytes_of(terms[:k]) is None:
+            raise RuntimeError('byte terms of int2bv not recognised')
+        e = bytes_to_int(terms[:k]).e
+        for v in [0, 1, 255, 256, 2 ** 32 - 1, 2 ** 32, 2 ** 32 + 5, U64, U64 + 1, -1] + [rng.randrange(U64 + 1) for _ in range(40)]:
+            got = z3.simplify(z3.substitute(e, (x, z3.IntVal(v)))).as_long()
+            want = int.from_bytes((v % 2 ** 64).to_bytes(8, 'little')[:k], 'little')
+            if got != want:
+                raise RuntimeError(f'bytes_to_int rewrite wrong for v={v} k={k}: {got} != {want}')
+    if _low_bytes_of(terms[1:3]) is not None or _low_bytes_of([terms[1], terms[0]]) is not None:
+        raise RuntimeError('byte-term matcher accepts bytes that are not the low bytes in order')
+    sol = z3.Solver()
+    sol.set('timeout', 30000)
+    if sol.check(z3.BV2Int(z3.Concat(*reversed(terms)), False) != x % (1 << 64)) != z3.unsat:
+        raise RuntimeError('bv2int(int2bv(v)) == v mod 2^64 not confirmed by z3')
+    notes.append('bytes_to_int rewrite bv2int(low k bytes of int2bv(v)) == v mod 2^(8k): exact on 250 values (k=1,2,4,7,8, negative '
+                 'and > 2^64 included); k=8 also proved by z3 (z3 cannot decide k<8 within 30 s, which is why the rewrite exists)')
+    # 3. with the stubs installed the real uint64 / uint32 code runs on boxes and symbolic bytes
+    class _C:
+        symbolic = True
+    env = Env(_C())
+    with env:
+        b = primitives.uint64(SInt(x))
+        if not isinstance(b, codec.Box) or not isinstance(primitives.uint64(7), primitives.uint64):
+            raise RuntimeError('boxed __new__ not in effect')
+        if primitives.uint64(2 ** 32 + 5).serialize().concrete() != struct.pack('<Q', 2 ** 32 + 5):
+            raise RuntimeError('stubbed uint64.serialize differs from struct')
+        if primitives.uint64.deserialize(0, codec.SBytes(list(struct.pack('<Q', 2 ** 32 + 5)))) != (8, 2 ** 32 + 5):
+            raise RuntimeError('stubbed uint64.deserialize differs from struct')
+        if primitives.uint32.deserialize(0, codec.SBytes(list(struct.pack('<I', 77)))) != (4, 77):
+            raise RuntimeError('stubbed uint32.deserialize differs from struct')
+    if primitives.uint64.STRUCT.__class__ is not struct.Struct or '__new__' in primitives.uint64.__dict__:
+        raise RuntimeError('codec stubs were not removed')
+    notes.append('uint64/uint32 with IntStruct + boxed __new__: real serialize/deserialize agree with struct; stubs removed afterwards')
     # in-memory file model against real aiofiles on a scratch directory
     import os
     import tempfile
@@ -1291,7 +1411,7 @@ def jobs(tier):
     # one upload attempt against a scripted downloader
     for lim in ('unlimited', 'limited', 'anysize'):
         out.append({'harness': 'upload', 'fn': h_upload, 'params': {'lim': lim, 'reads': K},
-                    'requires': ['upload_complete', 'upload_break', 'upload_end']})
+                    'requires': ['ticket_sent', 'upload_complete', 'upload_break', 'upload_end']})
     for orr in ('eof', 'partial'):
         out.append({'harness': 'upload', 'fn': h_upload, 'params': {'lim': 'unlimited', 'reads': 1, 'offset_read': orr},
                     'requires': ['upload_break', 'upload_end']})
